@@ -395,9 +395,10 @@ def desugar_combinators(F):
             if takes_arg:
                 stm.append({'d': {'l': V}, 'r': {'k': 'use', 'a': {'mv': {'l': R, 'p': [{'dc': var, 'vi': vi_t}, {'f': 0, 'n': '0', 'o': enum}]}}}, 'ln': ln})
             if ctor is not None:
-                ag = _agg(ctor[0], ctor[1], [{'mv': {'l': V}}])
-                if ctor[0] not in VAR:
-                    ag = {'k': 'agg', 'ak': 'adt', 'adt': ctor[0], 'var': ctor[1], 'ops': [{'mv': {'l': V}}]}
+                if ctor[0] in VAR and ctor[1] in VAR[ctor[0]]:
+                    ag = _agg(ctor[0], ctor[1], [{'mv': {'l': V}}])
+                else:
+                    ag = {'k': 'agg', 'ak': 'adt', 'adt': ctor[0], 'var': ctor[1], 'fn': ['0'], 'ops': [{'mv': {'l': V}}]}
                 stm.append({'d': {'l': C}, 'r': ag, 'ln': ln})
                 b['blocks'].append({'s': stm, 't': {'k': 'goto', 't': B + 1, 'ln': ln}})
             else:
